@@ -17,6 +17,9 @@ Recognised subset (anything else raises Untranslatable with file:line):
                    whose values are written as 1e<int> (read from the source text, not
                    from the float); `if arg.endswith('Meg'): arg = arg[0:-K] + 'M'` and
                    `elif arg.endswith('K'): arg = arg[0:-J] + 'k'` (K, J are translated)
+  printer consts : the single '<s>'.join(..) and `net += '<s>' + ..` of Cpt._netmake1, the single '<s>'.join(..) and
+                   '<f>' % (..) of Opts.format, `cpt_type + '<s>'` of _make_anon_cpt_name (translated; compared with the
+                   model's literals by the generated theorem printer_constants_guard)
   guards         : a Tuple of str constants compared with `cpt_type in (...)` /
                    `relname[0] in (...)`; `re.compile(<str> % '|'.join(cpts))`
 """
@@ -50,6 +53,7 @@ class Grammar:
         self.read_grammar()
         self.read_suffixes()
         self.read_guards()
+        self.read_printer_constants()
 
     def load(self, rel):
         p = os.path.join(self.repo, rel)
@@ -200,6 +204,48 @@ class Grammar:
         self.anon_print = anon[0]
 
     # ---------------------------------------------------------------
+    def one_const(self, rel, fn, pred, what, key=None):
+        """the unique AST node in fn satisfying pred (several are allowed when they all carry the same constant)"""
+        hits = [n for n in ast.walk(fn) if pred(n)]
+        if not hits or (len(hits) != 1 and (key is None or len(set(key(h) for h in hits)) != 1)):
+            fail(rel, fn, 'expected exactly one %s in %s, found %d' % (what, fn.name, len(hits)))
+        return hits[0]
+
+    def read_printer_constants(self):
+        """the literal separators of the writer:  ' '.join(parts)  and  net += '; ' + opts_str  in Cpt._netmake1,
+        ', '.join([...])  and  '%s=%s' % (key, val)  in Opts.format,  cpt_type + 'anon'  in _make_anon_cpt_name"""
+        is_join = lambda n: isinstance(n, ast.Call) and isinstance(n.func, ast.Attribute) and n.func.attr == 'join' \
+            and isinstance(n.func.value, ast.Constant) and isinstance(n.func.value.value, str)
+        rel = 'lcapy/mnacpts.py'
+        src, tree = self.load(rel)
+        cpt = [n for n in tree.body if isinstance(n, ast.ClassDef) and n.name == 'Cpt'][0]
+        nm = [n for n in cpt.body if isinstance(n, ast.FunctionDef) and n.name == '_netmake1'][0]
+        self.field_sep = self.one_const(rel, nm, lambda n: is_join(n) and len(n.args) == 1 and isinstance(n.args[0], ast.Name),
+                                        "'<sep>'.join(<name>)").func.value.value
+        aug = self.one_const(rel, nm, lambda n: isinstance(n, ast.AugAssign) and isinstance(n.op, ast.Add) and isinstance(n.value, ast.BinOp)
+                             and isinstance(n.value.left, ast.Constant) and isinstance(n.value.left.value, str), "net += '<sep>' + opts_str")
+        self.opts_sep = aug.value.left.value
+        rel = 'lcapy/opts.py'
+        src, tree = self.load(rel)
+        oc = [n for n in tree.body if isinstance(n, ast.ClassDef) and n.name == 'Opts']
+        fm = [n for c in oc for n in c.body if isinstance(n, ast.FunctionDef) and n.name == 'format']
+        if len(fm) != 1:
+            raise Untranslatable('%s: Opts.format not found' % rel)
+        self.item_sep = self.one_const(rel, fm[0], is_join, "'<sep>'.join(...)", key=lambda n: n.func.value.value).func.value.value
+        md = self.one_const(rel, fm[0], lambda n: isinstance(n, ast.BinOp) and isinstance(n.op, ast.Mod) and isinstance(n.left, ast.Constant)
+                            and isinstance(n.left.value, str), "'<fmt>' % (key, val)", key=lambda n: n.left.value)
+        self.item_fmt = md.left.value
+        rel = 'lcapy/netfile.py'
+        src, tree = self.load(rel)
+        fn = [n for c in tree.body if isinstance(c, ast.ClassDef) for n in c.body
+              if isinstance(n, ast.FunctionDef) and n.name == '_make_anon_cpt_name']
+        if len(fn) != 1:
+            raise Untranslatable('%s: _make_anon_cpt_name not found' % rel)
+        an = self.one_const(rel, fn[0], lambda n: isinstance(n, ast.BinOp) and isinstance(n.op, ast.Add) and isinstance(n.left, ast.Name)
+                            and n.left.id == 'cpt_type' and isinstance(n.right, ast.Constant) and isinstance(n.right.value, str), "cpt_type + '<suffix>'")
+        self.anon_suffix = an.right.value
+
+    # ---------------------------------------------------------------
     def coq(self):
         out = ['(* GENERATED by tools/tr_grammar.py from the current working tree; do not edit.']
         for f, h in sorted(self.files.items()):
@@ -222,6 +268,12 @@ class Grammar:
         out.append('Definition anon_types_parse : list str := [%s].' % '; '.join(coq_str(x) for x in self.anon_parse))
         out.append('Definition anon_types_print : list str := [%s].' % '; '.join(coq_str(x) for x in self.anon_print))
         out.append('Definition cpt_pattern_text : str := %s.' % coq_str(self.cpt_pattern))
+        out.append('(* literal separators of the writer (Cpt._netmake1, Opts.format, _make_anon_cpt_name) *)')
+        out.append('Definition field_sep_text : str := %s.' % coq_str(self.field_sep))
+        out.append('Definition opts_sep_text : str := %s.' % coq_str(self.opts_sep))
+        out.append('Definition item_sep_text : str := %s.' % coq_str(self.item_sep))
+        out.append('Definition item_fmt_text : str := %s.' % coq_str(self.item_fmt))
+        out.append('Definition anon_suffix_text : str := %s.' % coq_str(self.anon_suffix))
         return '\n'.join(out) + '\n'
 
 
